@@ -40,10 +40,12 @@ _TICKS = 4
 BOUNDS = (
     "resume token: state/call byte strings <= 4 bytes, arbitrary blobs <= 8 bytes; producer: scripts of 1..%d data ticks "
     "(finish on the last data tick or on a tick of its own), framed sizes symbolic 8..4103, wire cap None or any int 0..4095, "
-    "one optional log batch on the first tick" % _TICKS
+    "one optional log batch on the first tick; compressed turn: same scripts, cap 1..4095, codec holding back 0..8192 bytes until flush/close" % _TICKS
 )
 OUTSIDE = (
-    "response compression (the codec wraps the whole IPC stream, not modelled); the HTTP client's read loops "
+    "response compression beyond its buffering contract (item compressed_turn_...: sizes pass 1:1, the codec only delays bytes; the compressed byte values, "
+    "the middleware's own whole-body compression pass and the init turn, whose body is never compressed in-stream, are not modelled); "
+    "the layout of the resume blob (opaque: only round trip and re-encoding are asserted); the HTTP client's read loops "
     "(HttpStreamSession.__iter__/next_with_token: pyarrow readers; their token bookkeeping _resume_token/seek_to_token IS encoded); sealing/opening of the cursor token and cross-worker "
     "acceptance (C12/C14): the minted token is an opaque object carrying the state's cursor; real IPC framing"
 )
@@ -51,6 +53,7 @@ ASSUMPTIONS = [
     "struct model: pack('<I', n) = 4 little-endian bytes, struct.error outside 0..2^32-1; unpack_from('<I', b, 0) reads them back (validated against struct on random vectors at import)",
     "size-abstract Arrow model of harness/C16.py (validated against pyarrow at import)",
     "_mint_cursor_token := opaque token remembering the state's cursor; a continuation turn starts from a state rebuilt from that cursor",
+    "pa.CompressedOutputStream := pass-through that delays up to `block` bytes until flush()/close(), tell() = bytes written into it (measured on pyarrow zstd/gzip)",
 ]
 
 # ---------------------------------------------------------------------------
@@ -451,6 +454,171 @@ def resume_from_any_turn_yields_the_remainder(n: int, F0: int, F1: int, F2: int,
     for i in range(len(seq2)):
         if seq2[i] != start + i:
             return False
+    return True
+
+
+# ---------------------------------------------------------------------------
+# (b') the same cap bound when the turn's body is written through a response codec ("... every response
+#      compression setting ... all codecs")
+# ---------------------------------------------------------------------------
+
+_CODEC: dict = {"block": 0}
+
+
+class _CodecSink(M.FSink):
+    """``pa.CompressedOutputStream`` over the body buffer — contract only (measured on pyarrow: bytes written to the
+    codec reach the underlying buffer when the codec emits a block, at the latest on ``flush()`` / ``close()``;
+    ``tell()`` counts the bytes written *into* the codec).  The codec holds back up to ``block`` bytes (symbolic;
+    0 = no buffering).  Sizes pass 1:1 (incompressible data: an admissible behaviour of every codec)."""
+
+    def __init__(self, under, codec):  # type: ignore[no-untyped-def]
+        if not isinstance(under, M.FSink) or codec not in ("zstd", "gzip"):
+            raise HarnessModelError("codec sink over a foreign buffer / unknown codec")
+        self.__dict__.update(under=under, written=0, pending=0, log=under.log, closed_writers=0, closed=False)
+
+    @property
+    def pos(self):  # type: ignore[no-untyped-def]
+        return self.__dict__["written"]
+
+    @pos.setter
+    def pos(self, v):  # type: ignore[no-untyped-def]
+        d = self.__dict__
+        if d["closed"]:
+            raise HarnessModelError("write to a closed codec stream")
+        d["pending"] = d["pending"] + (v - d["written"])
+        d["written"] = v
+        if d["pending"] > _CODEC["block"]:
+            self.flush()
+
+    def flush(self) -> None:
+        d = self.__dict__
+        d["under"].pos = d["under"].pos + d["pending"]
+        d["pending"] = 0
+
+    def close(self) -> None:
+        self.flush()
+        self.__dict__["closed"] = True
+
+    def getvalue(self):  # type: ignore[no-untyped-def]
+        raise HarnessModelError("getvalue() on the codec stream (the body is the underlying buffer)")
+
+
+class _FakePaCodec(M._FakePa):
+    @staticmethod
+    def CompressedOutputStream(sink, codec):  # type: ignore[no-untyped-def]
+        return _CodecSink(sink, codec)
+
+
+_producer_turn_codec = reglobalize(
+    aps._run_http_producer_turn, pa=_FakePaCodec(), new_ipc_stream=M.f_new_ipc_stream, OutputCollector=M.XCollector, _flush_collector=M._flush,
+    _mint_cursor_token=M.f_mint_cursor_token, empty_batch=M.f_empty_batch, _record_output=M._noop, _write_error_batch=M.f_write_error_batch,
+)
+
+
+import os as _os  # noqa: E402
+from dataclasses import dataclass as _dataclass  # noqa: E402
+from typing import Protocol as _Protocol  # noqa: E402
+
+import pyarrow as _pa0  # noqa: E402
+from vgi_rpc.rpc import ProducerState as _ProducerState, Stream as _Stream  # noqa: E402
+
+_ZSCHEMA = _pa0.schema([_pa0.field("v", _pa0.binary())])
+_ZN, _ZROW, _ZCAP = 48, 4096, 1000
+
+
+@_dataclass
+class _ZProd(_ProducerState):
+    """Real producer of incompressible batches (so that compressed size ~ written size)."""
+
+    i: int = 0
+
+    def produce(self, out, ctx):  # type: ignore[no-untyped-def]
+        if self.i >= _ZN:
+            out.finish()
+            return
+        out.emit(_pa0.RecordBatch.from_pydict({"v": [_os.urandom(_ZROW)]}, schema=_ZSCHEMA))
+        self.i += 1
+
+
+class _ZSvc(_Protocol):
+    def gen(self) -> _Stream[_ZProd]: ...
+
+
+class _ZImpl:
+    def gen(self) -> _Stream[_ZProd]:
+        return _Stream(output_schema=_ZSCHEMA, state=_ZProd())
+
+
+def _replay_codec_bound(args: dict) -> str | None:
+    """Real server, real client, zstd negotiated: a producer of incompressible 4 KiB batches under a 1000-byte cap.  Every
+    continuation turn's ON-WIRE body may exceed the cap by at most its last data batch (bounded from above by that
+    batch's uncompressed framed size + the sentinel + codec framing slack)."""
+    from vgi_rpc.http import http_connect
+    from vgi_rpc.http._testing import make_sync_client
+    from vgi_rpc.rpc import RpcServer
+
+    n, row, cap = _ZN, _ZROW, _ZCAP
+    tap = M._Tap(make_sync_client(RpcServer(_ZSvc, _ZImpl()), token_key=b"k" * 32, max_response_bytes=cap, compression_level=3), [])
+    with http_connect(_ZSvc, client=tap, compression_level=3) as proxy:
+        got = sum(1 for _ in proxy.gen())
+    if got != n:
+        return f"compressed producer stream of {n} batches delivered {got}"
+    one_batch = row + 1024  # framed size of one data batch, generous
+    for r in tap.responses:
+        if not r["url"].endswith("/exchange") or r["error"]:
+            continue
+        if r["body"] > cap + one_batch + 1024:
+            return (f"zstd-compressed continuation turn under max_response_bytes={cap}: on-wire body is {r['body']} bytes — it exceeds the cap by "
+                    f"~{(r['body'] - cap) // row} batches of {row} incompressible bytes, not by at most the last batch written")
+    return None
+
+
+@cond(q=60, t=300, stubs=[*M._STUBS_D, "pa.CompressedOutputStream := pass-through that holds back up to `block` bytes until flush()/close()"],
+      encoded=[aps._run_http_producer_turn, wire._flush_collector],
+      bound="1..%d data ticks, framed sizes symbolic, any cap 1..4095, codec block buffer 0..8192 (0 = unbuffered)" % _TICKS,
+      replay=_replay_codec_bound, signature=lambda a, c: "C11:producer:compressed-turn-body-overshoots-cap")
+def compressed_turn_body_exceeds_cap_by_last_batch_only(n: int, F0: int, F1: int, F2: int, F3: int, fin_same: bool, wire_cap: int, block: int) -> bool:
+    """
+    pre: 1 <= n <= _TICKS and 8 <= F0 <= 4103 and 8 <= F1 <= 4103 and 8 <= F2 <= 4103 and 8 <= F3 <= 4103
+    pre: 1 <= wire_cap <= 4095 and 0 <= block <= 8192
+    post: _
+    """
+    M.reset()
+    _CODEC["block"] = block
+    script = [(F0 - 8, 8, 0), (F1 - 8, 8, 0), (F2 - 8, 8, 0), (F3 - 8, 8, 0)][:n]
+    app = M.FApp(M.FServer(None), wire_cap, None)
+    state = M.ScriptState(script, fin_same, 0)
+    outcome = M.FOutcome()
+    tok = aps._current_response_codec.set("zstd")
+    try:
+        blob = _producer_turn_codec(app, schema=M.SCHEMA, state=state, input_schema=None, method_name="m", stream_id="s", call_id=b"c",
+                                    auth=None, transport_metadata={}, outcome=outcome, owns_response_body=True)
+    except HarnessModelError:
+        raise
+    except Exception:  # noqa: BLE001
+        return False
+    finally:
+        aps._current_response_codec.reset(tok)
+    if outcome.status != "ok":
+        return False
+    # the body as it goes on the wire: every message that was written, in order (all of it flushed by close())
+    pos = 0
+    data_seen = False
+    for e in blob.log:
+        if e[0] == "schema":
+            size = M.HOLD["H"]
+        elif e[0] == "eos":
+            size = M.EOS
+        else:
+            size = e[1].F
+            if e[1].kind == "data":
+                # a further data batch may be produced only while the body does not yet exceed the cap
+                if data_seen and pos > wire_cap:
+                    return False
+                data_seen = True
+        pos = pos + size
+    if blob.n != pos:
+        raise HarnessModelError("codec model: the finished body is not the sum of the written messages")
     return True
 
 
